@@ -309,6 +309,61 @@ def checkProofs (cnf : CNF) (proofs : List (Nat × List Nat)) : Bool :=
   | some c => checkTrace c cnf.length proofs
   | none => false
 
+-- ---------------------------------------------------------------- replay by `logic.resolution`
+
+/-- `resolution_macro.get_proof_term`: the first pair `(i, j)` — `i` over the first clause, for it
+the first `j` — such that the literals are complementary (after `fixes/C15-4.patch` the positions
+found are used whichever side the positive literal is on). -/
+def findClashAux (d : Clause) : Clause → Nat → Option (Nat × Nat)
+  | [], _ => none
+  | l :: rest, i =>
+    match d.findIdx? (fun m => m == (l.1, !l.2)) with
+    | some j => some (i, j)
+    | none => findClashAux d rest (i + 1)
+
+def findClash (c d : Clause) : Option (Nat × Nat) := findClashAux d c 0
+
+/-- `logic.resolution(pt1, pt2)` on the clauses of the two theorems: the two found literals are
+removed (every copy of them, `fixes/C15-5.patch`), the rest is joined; `disj_norm` sorts and
+removes repetitions (the order is not observable: results are compared as sets).
+`none` = "literal not found". -/
+def macroResolve (c d : Clause) : Option Clause :=
+  match findClash c d with
+  | some (i, j) =>
+    match c[i]?, d[j]? with
+    | some l, some m => some (dedup (c.filter (fun x => x != l) ++ d.filter (fun x => x != m)))
+    | _, _ => none
+  | none => none
+
+def zStep (cnf : CNF) (acc : Option Clause) (j : Nat) : Option Clause :=
+  match acc, cnf[j]? with
+  | some c, some d => macroResolve c d
+  | _, _ => none
+
+/-- one `Resolvent` line `CL: id <= c0 c1 …` of a zChaff trace, or one proof list of
+`sat.solve_cnf`: `pt = clause_pt[c0]; for c in rest: pt = resolution(pt, clause_pt[c])` -/
+def zReplayOne (cnf : CNF) : List Nat → Option Clause
+  | [] => none
+  | i :: rest =>
+    match cnf[i]? with
+    | none => none
+    | some c0 => rest.foldl (zStep cnf) (some c0)
+
+/-- the replay loop of `zChaff.solve` / `proofrec.solve_cnf`: every derived clause is appended
+under the next index (the ids written in the trace are not read) -/
+def zReplay : CNF → List (List Nat) → Option CNF
+  | c, [] => some c
+  | c, p :: rest =>
+    match zReplayOne c p with
+    | some r => zReplay (c ++ [r]) rest
+    | none => none
+
+/-- `proofrec.solve_cnf` after the replay: `assert clause_pts[-1].prop == false` -/
+def proofrecCheck (cnf : CNF) (proofs : List (List Nat)) : Bool :=
+  match zReplay cnf proofs with
+  | some c => c.getLast? == some []
+  | none => false
+
 end Holpy.C15
 
 -- ---------------------------------------------------------------- Tseitin encoding
